@@ -425,7 +425,7 @@ func c18Harvest(r *core.Run, idx int, rng *rand.Rand) {
 		s := ssoSend{Path: env.PathSLO, Binding: "post", XML: l.XML(rng), HasRelay: true, Relay: legalXMLString(rng, 4)}
 		call, _ = s.do(e)
 	default: // attribute query answer echoing ID and user data
-		u := randUser(rng, fmt.Sprintf("UMK%dx", idx), true)
+		u := randUser(rng, fmt.Sprintf("U_MK%dx", idx), true)
 		e.W.AddUser(u)
 		q := conformantQuery(rng, d, u.Username)
 		q.ID = id
